@@ -113,10 +113,39 @@ def title(rnd, n=None):
     return s
 
 
+def make_sub_defaults(kind, rnd):
+    """the sub-item built the ordinary way: optional arguments left to their defaults"""
+    if kind == 'maxLen':
+        return ud.MaximumLengthSubItem(ints(rnd, 32))
+    if kind == 'implClass':
+        return ud.ImplementationClassUIDSubItem(uid(rnd))
+    if kind == 'asyncOps':
+        return ud.AsynchronousOperationsWindowSubItem(ints(rnd, 16), ints(rnd, 16))
+    if kind == 'role':
+        return ud.ScpScuRoleSelectionSubItem(uid(rnd), rnd.choice([0, 1]), rnd.choice([0, 1]))
+    if kind == 'implVersion':
+        return ud.ImplementationVersionNameSubItem(text(rnd, rnd.randrange(1, 17)))
+    if kind == 'extNeg':
+        return ud.SOPClassExtendedNegotiationSubItem(uid(rnd), bytes(rnd.randrange(256) for _ in range(rnd.choice([0, 3, 8]))))
+    if kind == 'userId':
+        return ud.UserIdentityNegotiationSubItem(utext(rnd, rnd.choice([1, 9])))
+    if kind == 'userIdAc':
+        return ud.UserIdentityNegotiationSubItemAc(utext(rnd, rnd.choice([1, 30])))
+    if kind == 'generic':
+        return ud.GenericUserDataSubItem(rnd.choice([0x57, 0x5A, 0x60]), bytes(rnd.randrange(256) for _ in range(rnd.choice([0, 2, 5]))))
+    raise KeyError(kind)
+
+
 def make_sub(kind, rnd, strict=False):
+    if rnd.random() < 0.25:
+        return make_sub_defaults(kind, rnd)
     r = 0 if strict and rnd.random() < 0.5 else ints(rnd, 8)
     if kind == 'maxLen':
-        return ud.MaximumLengthSubItem(ints(rnd, 32), r, 4 if strict or rnd.random() < 0.8 else ints(rnd, 16))
+        if strict or rnd.random() < 0.8:
+            return ud.MaximumLengthSubItem(ints(rnd, 32), r, 4)
+        x = ud.MaximumLengthSubItem(ints(rnd, 32), r, ints(rnd, 16))
+        x._verif_nonstd = True              # an item length the generator chose against the standard on purpose (C01 only)
+        return x
     if kind == 'implClass':
         return ud.ImplementationClassUIDSubItem(uid(rnd), r)
     if kind == 'asyncOps':
@@ -140,12 +169,17 @@ def make_sub(kind, rnd, strict=False):
 
 def make_pc_rq(rnd, nts=None):
     n = rnd.choice([0, 1, 2, 3, 5]) if nts is None else nts
+    if rnd.random() < 0.25:                 # optional arguments left to their defaults
+        return pdu.PresentationContextItemRQ(ints(rnd, 8), pdu.AbstractSyntaxSubItem(uid(rnd)),
+                                             [pdu.TransferSyntaxSubItem(uid(rnd)) for _ in range(n)])
     return pdu.PresentationContextItemRQ(ints(rnd, 8), pdu.AbstractSyntaxSubItem(uid(rnd), ints(rnd, 8)),
                                          [pdu.TransferSyntaxSubItem(uid(rnd), ints(rnd, 8)) for _ in range(n)],
                                          ints(rnd, 8), ints(rnd, 8), ints(rnd, 8), ints(rnd, 8))
 
 
 def make_pc_ac(rnd):
+    if rnd.random() < 0.25:
+        return pdu.PresentationContextItemAC(ints(rnd, 8), rnd.choice([0, 1, 2, 3, 4]), pdu.TransferSyntaxSubItem(uid(rnd)))
     return pdu.PresentationContextItemAC(ints(rnd, 8), rnd.choice([0, 1, 2, 3, 4, 255]),
                                          pdu.TransferSyntaxSubItem(uid(rnd), ints(rnd, 8)), ints(rnd, 8), ints(rnd, 8), ints(rnd, 8))
 
@@ -163,6 +197,8 @@ def make_assoc(cls, rnd, subs=None, items=None, called=None, calling=None):
     if subs is not None:
         its.append(pdu.UserInformationItem(list(subs), ints(rnd, 8)))
     r3 = tuple(ints(rnd, 32) for _ in range(8)) if rnd.random() < 0.3 else None
+    if rnd.random() < 0.2:                  # the PDU built the ordinary way
+        return cls(title(rnd) if called is None else called, title(rnd) if calling is None else calling, its)
     return cls(title(rnd) if called is None else called, title(rnd) if calling is None else calling, its,
                ints(rnd, 16), ints(rnd, 8), ints(rnd, 16), r3)
 
@@ -224,6 +260,34 @@ def systematic(rnd, tier):
                                                    subs if rnd.random() < 0.9 else None)))
         else:
             out.append(('random pdata', make_pdata(rnd, [rnd.choice([0, 1, 2, 100, 1000]) for _ in range(rnd.randrange(0, 6))])))
+    return out
+
+
+def reassigned(rnd, tier):
+    """second use of an object: an item built with one set of values, then given another through its public
+    attributes, must encode as a fresh item built from the second set.  Yields (label, touched object, fresh object).
+    UserIdentityNegotiationSubItem is left out: it keeps its text as encoded bytes behind read-only properties."""
+    out = []
+    for kind in SUB_KINDS:
+        if kind == 'userId':
+            continue
+        for _ in range(3 if tier == 'quick' else 40):
+            a, b = make_sub(kind, rnd), make_sub(kind, rnd)
+            for k, v in vars(b).items():
+                if not k.startswith('_'):
+                    setattr(a, k, v)
+            out.append(('reassigned %s' % kind, a, b))
+    for mk in (lambda: pdu.ApplicationContextItem(uid(rnd), ints(rnd, 8)), lambda: pdu.AbstractSyntaxSubItem(uid(rnd), ints(rnd, 8)),
+               lambda: pdu.TransferSyntaxSubItem(uid(rnd), ints(rnd, 8)), lambda: make_pc_rq(rnd), lambda: make_pc_ac(rnd),
+               lambda: pdu.PresentationDataValueItem(ints(rnd, 8), bytes(rnd.randrange(256) for _ in range(rnd.choice([0, 1, 9])))),
+               lambda: pdu.AAssociateRjPDU(ints(rnd, 8), ints(rnd, 8), ints(rnd, 8)), lambda: pdu.AAbortPDU(ints(rnd, 8), ints(rnd, 8)),
+               lambda: make_assoc(pdu.AAssociateRqPDU, rnd, [make_sub('maxLen', rnd)]), lambda: make_pdata(rnd, [3, 0, 7])):
+        for _ in range(2 if tier == 'quick' else 30):
+            a, b = mk(), mk()
+            for k, v in vars(b).items():
+                if not k.startswith('_'):
+                    setattr(a, k, v)
+            out.append(('reassigned %s' % type(a).__name__, a, b))
     return out
 
 
